@@ -1031,13 +1031,66 @@ def _dag_size(t, limit: int) -> int:
     return len(seen)
 
 
-def implied(ctx: Ctx, cond, timeout_ms: int = 10000) -> bool:
-    """True iff the solver proves `cond` from the current domain (used to pick branches soundly)."""
+def _term_vars(t, limit: int = 20000) -> set:
+    seen, out, stack = set(), set(), [t]
+    while stack and len(seen) < limit:
+        u = stack.pop()
+        i = u.get_id()
+        if i in seen:
+            continue
+        seen.add(i)
+        if z3.is_const(u) and u.decl().kind() == z3.Z3_OP_UNINTERPRETED:
+            out.add(str(u))
+        stack.extend(u.children())
+    return out
+
+
+def _implied(ctx: Ctx, cond, timeout_ms: int = 10000) -> bool:
+    """True iff the solver proves `cond` from the current domain (used to pick branches soundly).
+
+    First from a small, relevant part of the domain (proving from fewer assumptions is sound): the small
+    constraints (bounds, thresholds) plus whatever mentions the variables of `cond` within two steps; the large
+    auxiliary definitions that have nothing to do with `cond` otherwise stall nlsat.  Then from the whole domain."""
+    budget = min(timeout_ms, getattr(ctx, "implied_timeout_ms", timeout_ms))
+    everything = list(ctx.constraints) + list(atoms_nonzero(ctx)) + list(ctx.__dict__.get("_proved", []))
+    if len(everything) > 12:
+        cache = ctx.__dict__.setdefault("_constraint_vars", {})
+        info = []
+        for a in everything:
+            k = a.get_id()
+            if k not in cache:
+                cache[k] = (_term_vars(a), _dag_size(a, 80))
+                ctx.__dict__.setdefault("_keepalive", []).append(a)
+            info.append((a, *cache[k]))
+        cone = _term_vars(cond)
+        for step in range(3):
+            if step:
+                grown = set(cone)
+                for a, vs, size in info:
+                    if size < 80 and vs & cone:
+                        grown |= vs
+                cone = grown
+            # closed sub-problem: only constraints that talk about nothing but the cone
+            part = [a for a, vs, size in info if size < 80 and vs and vs <= cone]
+            if part and len(part) < len(everything):
+                s = z3.Solver()
+                s.set("timeout", max(200, budget // 4))
+                for a in part:
+                    s.add(a)
+                s.add(z3.Not(cond))
+                if str(s.check()) == "unsat":
+                    return True
     s = z3.Solver()
-    s.set("timeout", min(timeout_ms, getattr(ctx, "implied_timeout_ms", timeout_ms)))
-    for a in ctx.constraints:
-        s.add(a)
-    for a in atoms_nonzero(ctx):
+    s.set("timeout", budget)
+    for a in everything:
         s.add(a)
     s.add(z3.Not(cond))
     return str(s.check()) == "unsat"
+
+
+def implied(ctx: Ctx, cond, timeout_ms: int = 10000) -> bool:
+    ok = _implied(ctx, cond, timeout_ms)
+    if ok and _dag_size(cond, 40) < 40:
+        # a small proved fact is kept as a lemma for later sign questions (it is implied by the domain)
+        ctx.__dict__.setdefault("_proved", []).append(cond)
+    return ok
